@@ -187,6 +187,10 @@ def shrink_candidates(desc):
     if tag in ('L', 'sub'):
         yield list(LEAF0)
         return
+    if tag == 'arr':
+        if desc[2] != [] or desc[1] != 'float32':
+            yield ['arr', 'float32', [], desc[3]]
+        return
     yield list(LEAF0)
     # hoist children
     kids = []
